@@ -5,6 +5,7 @@ import (
 	"encoding/json"
 	"fmt"
 	"io"
+	"strings"
 
 	"github.com/robfig/soy/data"
 	"github.com/robfig/soy/parse"
@@ -77,6 +78,7 @@ type c08State struct {
 	cc       *sut.Compiled
 	data     []data.Map
 	ill      []data.Map
+	nild     []data.Map // hand-built data with Go nils inside
 	ij       []data.Map
 	cats     map[int]soymsg.Bundle
 	reused   map[string]*soyhtml.Renderer
@@ -109,7 +111,9 @@ func (st *c08State) cat(kind int) soymsg.Bundle {
 // modelRender is the reference model: the same render as the first operation on a freshly
 // compiled bundle with pristine data.
 func (st *c08State) modelRender(op c08Op, ill bool) (modelOut, error) {
-	key := fmt.Sprintf("%s|%d|%d|%d|%v", op.Template, op.Data, op.IJ, op.Cat, ill)
+	tofu := strings.HasPrefix(op.Op, "render-tofu")
+	nils := strings.HasSuffix(op.Op, "-nils")
+	key := fmt.Sprintf("%s|%d|%d|%d|%v|%v|%v", op.Template, op.Data, op.IJ, op.Cat, ill, tofu, nils)
 	if m, ok := st.model[key]; ok {
 		return m, nil
 	}
@@ -128,18 +132,57 @@ func (st *c08State) modelRender(op c08Op, ill bool) (modelOut, error) {
 	var buf bytes.Buffer
 	saved := sut.Injector
 	sut.Injector = nil
-	rerr, esc := cc.Render(&buf, op.Template, d.Map(), st.cs.Bundle.IJ[op.IJ].Map(), cat)
+	dm := d.Map()
+	if nils {
+		dm = withNils(dm)
+	}
+	var rerr error
+	var esc *sut.Escape
+	if tofu {
+		rerr, esc = tofuRender(cc, &buf, op.Template, dm)
+	} else {
+		rerr, esc = cc.Render(&buf, op.Template, dm, st.cs.Bundle.IJ[op.IJ].Map(), cat)
+	}
 	sut.Injector = saved
 	m := modelOut{out: buf.Bytes(), err: rerr != nil, esc: esc != nil}
 	st.model[key] = m
 	return m, nil
 }
 
+// withNils returns the data map with Go nils put where a hand-built data.Map may have them: an
+// optional value, an element of a list, a field of the nested map.
+func withNils(m data.Map) data.Map {
+	if _, ok := m["o"]; ok {
+		m["o"] = nil
+	}
+	if l, ok := m["ss"].(data.List); ok {
+		m["ss"] = append(l[:len(l):len(l)], nil)
+	}
+	if mm, ok := m["m"].(data.Map); ok {
+		mm["c"] = nil
+	}
+	m["unused"] = nil
+	return m
+}
+
+// tofuRender renders through Tofu.Render (no injected data, no catalogue).
+func tofuRender(cc *sut.Compiled, w io.Writer, name string, d data.Map) (err error, esc *sut.Escape) {
+	defer func() {
+		if r := recover(); r != nil {
+			if simrt.IsAbort(r) {
+				panic(r)
+			}
+			esc = &sut.Escape{Value: fmt.Sprint(r), Site: "Tofu.Render"}
+		}
+	}()
+	return cc.Tofu.Render(w, name, d), nil
+}
+
 type c08Digests struct{ data, ij, reg, bundle, globals, cats uint64 }
 
 func (st *c08State) digests() c08Digests {
 	var d c08Digests
-	d.data = digest.Of(st.data, st.ill)
+	d.data = digest.Of(st.data, st.ill, st.nild)
 	d.ij = digest.Of(st.ij)
 	d.reg = digest.Of(st.cc.Reg)
 	d.bundle = digest.Of(st.cc.Bundle)
@@ -198,6 +241,7 @@ func c08Exec(cs *c08Hist, counters map[string]int64) (*wk.Failure, int) {
 	for i, d := range cs.Bundle.Data {
 		st.data = append(st.data, d.Map())
 		st.ill = append(st.ill, illTyped(d, i).Map())
+		st.nild = append(st.nild, withNils(d.Map()))
 	}
 	for _, d := range cs.Bundle.IJ {
 		st.ij = append(st.ij, d.Map())
@@ -217,7 +261,7 @@ func c08Exec(cs *c08Hist, counters map[string]int64) (*wk.Failure, int) {
 		what := fmt.Sprintf("op %d (%s %s)", i, op.Op, op.Template)
 		counters["op_"+op.Op]++
 		switch op.Op {
-		case "render", "render-reused", "render-illtyped", "render-writerfault", "render-panic":
+		case "render", "render-reused", "render-illtyped", "render-writerfault", "render-panic", "render-tofu", "render-nils", "render-tofu-nils":
 			ill := op.Op == "render-illtyped"
 			m, err := st.modelRender(op, ill)
 			if err != nil {
@@ -226,6 +270,9 @@ func c08Exec(cs *c08Hist, counters map[string]int64) (*wk.Failure, int) {
 			d := st.data[op.Data]
 			if ill {
 				d = st.ill[op.Data]
+			}
+			if strings.HasSuffix(op.Op, "-nils") {
+				d = st.nild[op.Data]
 			}
 			w := faults.NewWriter()
 			if op.Op == "render-writerfault" {
@@ -252,6 +299,8 @@ func c08Exec(cs *c08Hist, counters map[string]int64) (*wk.Failure, int) {
 				}
 				rd.Inject(st.ij[op.IJ])
 				rerr = rd.Execute(w, d)
+			} else if strings.HasPrefix(op.Op, "render-tofu") {
+				rerr, esc = tofuRender(cc, w, op.Template, d)
 			} else {
 				rerr, esc = cc.Render(w, op.Template, d, st.ij[op.IJ], st.cat(op.Cat))
 			}
@@ -390,8 +439,14 @@ func c08History(r *simrt.RNG, gc *gen.Case, maxLen int) *c08Hist {
 			op.Cat = altCats[r.Intn(2)]
 		}
 		switch x := r.Intn(100); {
-		case x < 40:
+		case x < 30:
 			op.Op = "render"
+		case x < 36:
+			op.Op = "render-tofu"
+		case x < 38:
+			op.Op = "render-nils"
+		case x < 40:
+			op.Op = "render-tofu-nils"
 		case x < 50:
 			op.Op = "render-reused"
 		case x < 60:
